@@ -150,9 +150,10 @@ def reloadV (g : AGraph) (e : Elem) : Option Elem :=
 def reloadE (g : AGraph) (e : Elem) : Option Elem :=
   if e.loaded then some e else (g.getEdge e.gid).map edgeElem
 
-/-- `pipeline.Convert(graph, dataType, markTypes, t)`.  (A selected *edge* mark that is not
-    loaded dereferences a nil pointer in the Go code; such travelers are outside this model —
-    `none` drops the entry.) -/
+/-- `pipeline.Convert(graph, dataType, markTypes, t)`: unloaded elements are fetched from the
+    graph (the selected-edge arm since the `fix:` commit for finding C11-convert-nil-edge).
+    A selected element that no longer exists is a nil dereference in the Go code (changed graph:
+    outside the property); the model drops the entry. -/
 def convertL (g : AGraph) (st : TState) (t : Traveler) : Row :=
   match st.last with
   | .vertex => .vertex (t.cur.bind (reloadV g))
@@ -161,7 +162,7 @@ def convertL (g : AGraph) (st : TState) (t : Traveler) : Row :=
     .sel ((t.sel.getD []).filterMap (fun (kv : String × Elem) =>
       match st.marks.get kv.1 with
       | .vertex => (reloadV g kv.2).map fun e => (kv.1, DataType.vertex, e)
-      | .edge => if kv.2.loaded then some (kv.1, DataType.edge, kv.2) else none
+      | .edge => (reloadE g kv.2).map fun e => (kv.1, DataType.edge, e)
       | _ => none))
   | _ => convert st t
 
@@ -174,9 +175,17 @@ def matchLoop {κ : Type} [DecidableEq κ] : List κ → List κ → Bool
   | [], _ :: _ => false
   | q :: qs, j :: js => (if q = j then true else false) && matchLoop qs js
 
-def jobMatch {κ : Type} [DecidableEq κ] (query job : List κ) : Bool :=
+/-- `JobMatch` with the bound of its final test `len(job) > n && match` as a parameter. -/
+def jobMatchN {κ : Type} [DecidableEq κ] (n : Nat) (query job : List κ) : Bool :=
   if job.length > query.length then false
-  else decide (job.length > 1) && matchLoop query job
+  else decide (job.length > n) && matchLoop query job
+
+def jobMatch {κ : Type} [DecidableEq κ] (query job : List κ) : Bool := jobMatchN 1 query job
+
+/-- the JSON keys of an object (to compare the marshalling model with the Go struct definitions) -/
+def objKeys : JV → List String
+  | .obj kvs => kvs.map (·.1)
+  | _ => []
 
 /-! ### the job store (jobstorage/storage.go) -/
 
